@@ -830,6 +830,10 @@ impl Xot {
                     }
                 }
             } else {
+                // the input ended in the middle of a start tag
+                if let Some(element_builder) = &builder.element_builder {
+                    return Err(ParseError::UnclosedTag(element_builder.span));
+                }
                 return Ok((span_info, builder));
             }
         }
